@@ -8,6 +8,7 @@ import Prom.Drv.Fall
 import Prom.Drv.Conc
 import Prom.Drv.Text
 import Prom.Drv.Pb
+import Prom.Drv.C16
 /- Line-protocol driver: one request per line on stdin, one result per line on stdout. -/
 open Prom Prom.Drv
 
@@ -33,6 +34,7 @@ def step (st : DState) (line : String) : DState × String :=
   | "fall" :: args => (st, fallHandle args)
   | "timer" :: args => let (v, o) := timerHandle st.tw args; ({ st with tw := v }, o)
   | "local" :: args => let (v, o) := localHandle st.loc args; ({ st with loc := v }, o)
+  | "reg" :: "gathertext" :: args => (st, gatherTextHandle st.reg args)
   | "reg" :: args => let (v, o) := regHandle st.reg args; ({ st with reg := v }, o)
   | "vec" :: args => let (v, o) := vecHandle st.vec args; ({ st with vec := v }, o)
   | _ => (st, "bad-op")
